@@ -1089,10 +1089,14 @@ class Module(ABC):
         view[boolean_cols] = view[boolean_cols].astype(bool)
 
         # Properties that are the same in all compartments of the branch (checked above)
-        # are kept exactly; their mean can be off by a rounding error.
-        for col in ["capacitance", "axial_resistivity"] + list(
+        # are kept exactly; their mean can be off by a rounding error. The same holds
+        # for the voltage if it is uniform in the branch.
+        exact_cols = ["capacitance", "axial_resistivity"] + list(
             dict.fromkeys(channel_param_names + channel_state_names)
-        ):
+        )
+        if self.nodes["v"].nunique(dropna=False) == 1:
+            exact_cols.append("v")
+        for col in exact_cols:
             view[col] = self.nodes[col].to_numpy()[0]
 
         # Special treatment for the lengths and radiuses. These are not being set as
